@@ -743,6 +743,7 @@ func check(run *enga.Run) *sim.Violation {
 				continue
 			}
 			if op.Op == "Fresh" {
+				run.Out.Probes["fresh_instance_created_during_run"]++
 				if !r.OK {
 					return &sim.Violation{Class: "fresh_instance_disturbed", Site: "mapz.NewSafeKV", Detail: fmt.Sprintf("a map created while other maps are in use: Len() before/after SetNx/after Delete = %d/%d/%d, Get = %#x, %d keys (expected 0/1/0, the stored value and one key)", r.Vs[0], r.Vs[1], r.Vs[2], r.Vs[3], r.Vs[4])}
 				}
